@@ -17,7 +17,13 @@ are compared exactly, as UTF-8 bytes); functions with trailing optional inputs c
 with "" in the middle; functions importing a domain the model does not import; twin NON-DETERMINISTIC nodes without a
 seed, observed only through ``all(a == b)`` - 0 with probability 1 (< 2**-60 otherwise) for two independent draws, 1 for
 one shared draw - so that merging them is an ordinary output difference; Identity between symbolic declared shapes
-(reached, but a wrong merged shape has no observable in this property).  Outside the judged domain: initializers
+(reached, but a wrong merged shape has no observable in this property); names that a pass DERIVES when it has to make a
+name unique (``<base>_<k>``) already in use next to the collision that makes it derive them: same-named initializers in
+sibling / nested subgraphs with ``c_1``, ``c_2``, ``c_1_1`` held by other initializers (of the same, an earlier or a later
+subgraph, of the main graph, or one that is an output of its branch and cannot leave it), by node outputs or by a Loop
+body input; function-internal values ``t`` / ``t_2`` of a function called several times where ``t``, ``t_2``, ``t_3`` ... are
+in use (``reach:subgraph_init_lifted_next_to_derived_names``, ``reach:call_inlined_next_to_derived_names``; decided
+on the protos, whatever planted them).  Outside the judged domain: initializers
 without a tensor (the library itself calls them invalid), function parameters of GRAPH type (the inliner documents
 that it refuses them), string tensors with trailing NUL bytes (both evaluators drop them when handing out strings).
 
@@ -39,6 +45,7 @@ from __future__ import annotations
 import logging
 import os
 import random
+import re
 import warnings
 import zlib
 from collections import Counter
@@ -319,6 +326,32 @@ def shadowed_names(proto, declared_only: bool = False) -> set[str]:
 
 
 # ---- reach monitors: did the workload put the rarely reached rewriting code to work? ----------------------------
+_SUFFIX = re.compile(r"_\d+$")  # <base>_<k>: the form of the names that the passes derive from <base>
+
+
+def _graph_names(graph) -> set[str]:
+    """Every value name that the graph and the graphs nested in it declare or define."""
+    names: set[str] = set()
+    for g in _all_graphs(graph):
+        names.update(i.name for i in g.input)
+        names.update(t.name for t in g.initializer)
+        names.update(o for n in g.node for o in n.output if o)
+    return names
+
+
+def _derived_bases(names) -> set[str]:
+    """The bases <b> for which some name <b>_<k>[_<k>...] is among ``names`` (every prefix that ends before a _<k>)."""
+    bases: set[str] = set()
+    for name in names:
+        while True:
+            shorter = _SUFFIX.sub("", name)
+            if shorter == name or not shorter:
+                break
+            name = shorter
+            bases.add(name)
+    return bases
+
+
 _RANDOM_OPS = {"RandomNormal", "RandomUniform", "RandomNormalLike", "RandomUniformLike", "Multinomial", "Bernoulli"}
 
 
@@ -347,11 +380,26 @@ def reach_stats(proto) -> dict:
     foreign = {_norm(o.domain) for f in proto.functions for o in f.opset_import} - imported
     symbolic = sum(1 for g in _all_graphs(proto.graph) for vi in list(g.value_info) + list(g.output)
                    if any(not d.HasField("dim_value") for d in vi.type.tensor_type.shape.dim))
+    # names that a pass would derive (<base>_<k>) are in use next to the <base> it would have to rename: an initializer
+    # name that several subgraphs hold; a value name inside a function that is called from the main graph tree
+    main_names = _graph_names(proto.graph)
+    taken_bases = _derived_bases(main_names)
+    subgraphs = [g for g in _all_graphs(proto.graph)][1:]
+    held = Counter(t.name for g in subgraphs for t in g.initializer)
+    called = {(_norm(n.domain), n.op_type, n.overload) for n in main_nodes} & set(declared)
+    fn_family = 0
+    for f in proto.functions:
+        if (_norm(f.domain), f.name, f.overload) in called:
+            inner = {o for n in _all_nodes(f.node) for o in n.output if o}
+            fn_family += bool(inner & taken_bases)
     return {
         "string_consts": string_consts, "string_inits": sum(string_inits), "string_inits_max": max(string_inits),
         "absent_calls": absent, "foreign": foreign, "imported": imported,
         "random_main": sum(1 for n in proto.graph.node if n.op_type in _RANDOM_OPS or (n.op_type == "Dropout" and len(n.input) == 3)),
         "identities": sum(1 for n in main_nodes if n.op_type == "Identity"), "symbolic": symbolic,
+        "init_family": sum(1 for name, k in held.items() if k >= 2 and name in taken_bases),
+        "subgraph_inits": sum(held.values()), "fn_family": fn_family,
+        "local_calls_main": sum(1 for n in main_nodes if (_norm(n.domain), n.op_type, n.overload) in declared),
     }
 
 
@@ -382,6 +430,14 @@ def count_reach(ctx, case: GE.Case, proto, applied) -> None:
         ctx.count("reach:cse_on_random_twins")
     if "IdentityEliminationPass" in names and before["symbolic"] and after["identities"] < before["identities"]:
         ctx.count("reach:identity_eliminated_with_symbolic_dims")
+    if "LiftSubgraphInitializersToMainGraphPass" in names and before["init_family"]:
+        ctx.count("reach:lift_on_subgraph_init_name_family")
+        if after["subgraph_inits"] < before["subgraph_inits"]:
+            ctx.count("reach:subgraph_init_lifted_next_to_derived_names")
+    if "InlinePass" in names and before["fn_family"]:
+        ctx.count("reach:inline_on_fn_inner_name_family")
+        if after["local_calls_main"] < before["local_calls_main"]:
+            ctx.count("reach:call_inlined_next_to_derived_names")
 
 
 def overrides_allowed(specs) -> bool:
@@ -673,6 +729,11 @@ def _bn_inference_rewrite_observed(case: GE.Case, source: str, minimal, feats) -
 
 
 FORMAL_REUSE = "fn_subgraph_formal_name_reuse"
+RETURNED_FAMILY = "subgraph_init_returned_name_family"
+# (culprit pass, planted feature): patterns that often need company to become visible at an output (another feature
+# decides which branch the inputs select) and whose mechanism leaves a structural trace - a nested body that declares
+# a name an enclosing graph uses - which is looked for on the regenerated minimal model
+HIDING_DECLARATION = {"InlinePass": FORMAL_REUSE, "LiftSubgraphInitializersToMainGraphPass": RETURNED_FAMILY}
 
 
 def _nested_declaration_hides_outer_observed(case: GE.Case, source: str, minimal, feats) -> bool:
@@ -706,12 +767,14 @@ def report(ctx, case: GE.Case, source: str, specs, clause: str, message: str) ->
         detail, feats, needs_detail = "criteria-verdict-changes-during-pass", list(case.info["features"]), True
     else:
         detail, feats = attribute(case, source, minimal, clause, first=seen, deep=needs_detail)
-    if needs_detail and culprit[0] == "InlinePass" and FORMAL_REUSE in feats and detail != FORMAL_REUSE and \
-            (detail == "multi" or detail.startswith(FORMAL_REUSE + "+")) and \
+    hiding = HIDING_DECLARATION.get(culprit[0])
+    if needs_detail and hiding is not None and hiding in feats and detail != hiding and \
+            (detail == "multi" or detail.startswith(hiding + "+")) and \
             _nested_declaration_hides_outer_observed(case, source, minimal, feats):
         # the planted pattern needs company to become visible at an output (or an ambient mode was planted with it):
-        # the hiding declaration in an inlined body is observed, the mechanism is that of the feature alone
-        detail = FORMAL_REUSE
+        # the hiding declaration in an inlined body / next to a lifted initializer is observed, the mechanism is that
+        # of the feature alone
+        detail = hiding
     if detail == "multi" and needs_detail:
         # no single planted feature suffices: name the 1-minimal feature set; when that set needs the
         # training-mode BatchNormalization and the inference-mode rewrite is observed on it, the other
@@ -749,7 +812,9 @@ def plan(tier: str) -> dict:
     # an opset import added by the inliner, CSE run over twin non-deterministic nodes, Identity between symbolic shapes
     for key, floor in (("reach:string_constant_lifted", 3), ("reach:string_initializers_merged", 15),
                        ("reach:call_with_absent_input_inlined", 8), ("reach:inline_added_opset_import", 6),
-                       ("reach:cse_on_random_twins", 8), ("reach:identity_eliminated_with_symbolic_dims", 6)):
+                       ("reach:cse_on_random_twins", 8), ("reach:identity_eliminated_with_symbolic_dims", 6),
+                       # names derived by a pass already in use (observed on a loaded machine, 723 models: 48 / 21)
+                       ("reach:subgraph_init_lifted_next_to_derived_names", 6), ("reach:call_inlined_next_to_derived_names", 4)):
         floors[key] = floor if quick else 10 * floor
     return {
         "cases": 8000 if quick else 110000,
